@@ -42,7 +42,9 @@ Methods == {"delegate", "undelegate", "redelegate", "cancelUnbonding", "withdraw
             "setWithdrawAddress", "withdrawCommission", "ibcTransfer"}
 Whos == {"S", "self", "T"}
 NoGrant == <<>>
-Grant(ty, lim, exp, val) == [grantee |-> "C0", type |-> ty, limit |-> lim, expired |-> exp, val |-> val]
+Grant(ty, lim, exp, val) == [grantee |-> "C0", type |-> ty, limit |-> lim, expired |-> exp, val |-> val, alloc2 |-> ""]
+\* an ICS-20 authorization with two allocations: channel-0 (lim) and channel-1 (lim2)
+Grant2(lim, lim2) == [Grant("ibc", lim, FALSE, 0) EXCEPT !.alloc2 = lim2]
 GrantKinds(m) == LET t == TypeOf(m) IN
     IF t = "-" THEN {NoGrant}
     ELSE IF t = "ibc" THEN {NoGrant, <<Grant(t, "", FALSE, 0)>>, <<Grant(t, Amt, FALSE, 0)>>, <<Grant(t, "999", FALSE, 0)>>,
@@ -56,8 +58,12 @@ GrantsFor(m, c) == IF TypeOf(m) = "-" THEN NoGrant ELSE <<[Grant(TypeOf(m), "", 
 Setup(signer, wdS, grants, value) ==
     [signer |-> signer, wd |-> [S |-> wdS], grants |-> grants, delegS |-> "1000000000000000000000",
      delegT |-> "1000000000000000000000", ubdS |-> "5000000", fundC |-> "5000000000000000000", warm |-> 3,
-     delegC |-> "0", denom2 |-> FALSE]
+     delegC |-> "0", denom2 |-> FALSE, acl |-> FALSE]
 SetupC(wdS, grants, d2) == [Setup("a1", wdS, grants, Z) EXCEPT !.delegC = "700000000000000000000", !.denom2 = d2]
+
+\* the same as an EIP-2930 transaction whose access list makes every callee warm (no access-list entry is
+\* journaled between the balance changes of a call)
+Warm(S) == {[x EXCEPT !.setup.acl = TRUE] : x \in S}
 
 \* ----- C02: no frame reverts on purpose ------------------------------------------------
 C02Direct == {[setup |-> Setup(IF m = "withdrawCommission" THEN "v1" ELSE "a1", w, NoGrant, Z), top |-> Pc(0, "catch", m, who, Amt)] :
@@ -110,8 +116,8 @@ C02Create ==
               w \in {"self", "W"}, v \in {Z, "600"}} : m \in {"delegate", "withdrawRewards", "setWithdrawAddress", "query"}}
 
 \* ----- C05: exactly one frame reverts ---------------------------------------------------
-RevMethods == {"delegate", "undelegate", "withdrawRewards", "claimRewards", "setWithdrawAddress", "approve", "redelegate", "ibcTransfer"}
-PcM(id, mode, m) == IF m = "approve" THEN PcG(id, mode, "approve", "C0", "4000000") ELSE Pc(id, mode, m, "S", Amt)
+RevMethods == {"delegate", "undelegate", "withdrawRewards", "claimRewards", "setWithdrawAddress", "approve", "redelegate", "ibcTransfer", "ibcApprove"}
+PcM(id, mode, m) == IF m \in {"approve", "ibcApprove"} THEN PcG(id, mode, m, "C0", "4000000") ELSE Pc(id, mode, m, "S", Amt)
 C05Trees(m) ==
     { \* (i) the frame that made the precompile call reverts afterwards, the parent catches
       [c |-> "C1", t |-> CallC(0, "catch", Z, <<CallC(1, "catch", Z, <<PcM(2, "catch", m), Rev(3)>>), Store(4)>>)],
@@ -157,7 +163,7 @@ C05Destroy ==
 \* (viii) a contract creation whose constructor called a precompile fails
 C05Create(m) == {[c |-> "N0", t |-> Create(0, Z, <<Store(1), PcM(2, "catch", m), Rev(3)>>)],
                  [c |-> "N0", t |-> Create(0, "600", <<PcM(2, "catch", m), Inval(3)>>)]}
-C05All == C05Failed \cup C05Destroy \cup C02Plain \cup C02PcValue
+C05All == C05Failed \cup C05Destroy \cup C02Plain \cup C02PcValue \cup Warm(C02Plain \cup C05Destroy \cup C02PcValue)
           \cup UNION {{[setup |-> Setup("a1", w, GrantsFor(m, x.c), Z), top |-> x.t] : w \in {"self", "W"}, x \in C05Reentrant(m) \cup C05Create(m)} :
                        m \in {"delegate", "setWithdrawAddress", "withdrawRewards", "approve", "query"}}
           \cup UNION {{[setup |-> Setup("a1", w, GrantsFor(m, x.c), Z), top |-> x.t] : w \in {"self", "W"}, x \in C05Trees(m)} : m \in RevMethods}
@@ -187,10 +193,20 @@ C04Reverted ==
            top |-> CallC(0, "catch", Z, <<CallC(1, "catch", Z, <<PcG(2, "catch", "increaseAllowance", "C0", "1000000"), Rev(3)>>),
                                           Pc(4, "catch", sp, "S", "2500000"), Store(5)>>)] : sp \in {"delegate", "undelegate"}}
 
+\* ICS-20 allowance arithmetic over one or two allocations of the signer's transfer authorization
+IbcOps == {<<"ibcTransfer", Amt, 0>>, <<"ibcTransfer", "2000000", 0>>, <<"ibcIncrease", "1000000", 0>>, <<"ibcIncrease", "1000000", 1>>,
+           <<"ibcDecrease", "500000", 0>>, <<"ibcDecrease", "1000000", 1>>, <<"ibcApprove", "3000000", 0>>, <<"ibcRevoke", Z, 0>>}
+IbcOp(id, x) == IF x[1] = "ibcTransfer" THEN Pc(id, "catch", x[1], "S", x[2]) ELSE [PcG(id, "catch", x[1], "C0", x[2]) EXCEPT !.val = x[3]]
+C04Ibc ==
+    {[setup |-> Setup("a1", "self", g, Z),
+      top |-> CallC(0, "catch", Z, <<IbcOp(1, a), IbcOp(2, b), IbcOp(3, c), Store(4)>>)] :
+         a \in IbcOps, b \in IbcOps, c \in IbcOps,
+         g \in {NoGrant, <<Grant("ibc", "1500000", FALSE, 0)>>, <<Grant2("1500000", "1000000")>>, <<Grant2("", "1000000")>>}}
+
 Scenarios == CASE Family = "C02" -> C02Direct \cup C02ViaContract \cup C02Dirty \cup C02Nested \cup C02Forward \cup C02Plain \cup C02Own \cup C02Create
-                                    \cup C02PcValue \cup C05Destroy
+                                    \cup C02PcValue \cup C05Destroy \cup Warm(C02Plain \cup C02PcValue \cup C02Forward)
                [] Family = "C05" -> C05All
-               [] Family = "C04" -> C04Matrix \cup C04Sequences \cup C04Reverted
+               [] Family = "C04" -> C04Matrix \cup C04Sequences \cup C04Reverted \cup C04Ibc
                [] Family = "C04small" -> C04Matrix \cup C04Reverted
 
 ---------------------------------------------------------------------------
@@ -209,13 +225,22 @@ AbstractPre(x) ==
         vs == {"V1", "V2", "V3"}
         sl == IF HasBody(x.top) THEN Slots("S", <<x.top>>) ELSE {}
         own(a, v) == a = "C0" /\ v = "V1" /\ x.setup.delegC # "0"
-        gr(g, e, t) == LET hit == {i \in 1..Len(x.setup.grants) : g = "S" /\ x.setup.grants[i].grantee = e /\ x.setup.grants[i].type = t} IN
+        \* the set-up grant that decides grant type t: the ICS-20 fields all come from the "ibc" grant
+        hitOf(g, e, t) == {i \in 1..Len(x.setup.grants) : g = "S" /\ x.setup.grants[i].grantee = e
+                                                            /\ x.setup.grants[i].type = (IF t \in {"ibc1", "ibcx"} THEN "ibc" ELSE t)}
+        gr(g, e, t) == LET hit == hitOf(g, e, t) IN
                        IF hit = {} THEN "none" ELSE LET h == x.setup.grants[CHOOSE i \in hit : TRUE] IN
-                       IF h.expired THEN "expired" ELSE IF h.limit = "" THEN "unl" ELSE h.limit
-        gv(g, e, t) == LET hit == {i \in 1..Len(x.setup.grants) : g = "S" /\ x.setup.grants[i].grantee = e /\ x.setup.grants[i].type = t} IN
-                       IF hit = {} THEN <<>>
+                       IF h.expired THEN "expired"
+                       ELSE IF t = "ibcx" THEN "yes"
+                       ELSE IF t = "ibc1" THEN (IF h.alloc2 = "" THEN "none" ELSE h.alloc2)
+                       ELSE IF t = "ibc" /\ h.val # 0 THEN "none"
+                       ELSE IF h.limit = "" THEN "unl" ELSE h.limit
+        gv(g, e, t) == LET hit == hitOf(g, e, t) IN
+                       IF hit = {} \/ t \in {"ibc1", "ibcx"} THEN <<>>
                        ELSE LET h == x.setup.grants[CHOOSE i \in hit : TRUE] IN
-                            IF t = "ibc" THEN <<IF h.val = 0 THEN "channel-0" ELSE "channel-" \o ToString(5 + h.val)>> ELSE <<ValName(h.val)>>
+                            IF t = "ibc" THEN <<IF h.val = 0 THEN "channel-0" ELSE "channel-" \o ToString(5 + h.val)>>
+                                              \o (IF h.alloc2 = "" THEN <<>> ELSE <<"channel-1">>)
+                            ELSE <<ValName(h.val)>>
     IN [ bank |-> [a \in as |-> IF a \in cs THEN "5000000000" ELSE "900000000000"],
          mods |-> [m \in {"bonded", "notbonded", "distr", "feecollector", "evm", "escrow"} |-> "70000000000"],
          supply |-> "100000000000000",
